@@ -123,22 +123,26 @@ def sweep_cases(tier, seed):
         for idle in (0, 5):
             for ie in (False, True):
                 cfg = {"max_pool_size": mx, "pool_idle_timeout": idle, "ignore_exc": ie}
+                if mx == 2:
+                    cfg["keepalive"] = [2, 3, 4]
+                    cfg["no_delay"] = True
                 for oi, r in enumerate(OPS):
                     if tier == "quick" and (oi + (mx or 0) + idle) % 2:
                         continue
-                    base = {"kind": "pooled", "cfg": cfg, "coalesce": bool(oi % 2),
-                            "calls": [{"op": OPS[0]}, {"op": r, "advance": 1}, {"op": OPS[2], "advance": 1}, {"op": OPS[0]}]}
-                    dry = interpret(base)
-                    for ev_kind, nth in dry.events_by_call[1]:
-                        for f in faultlab.faults_for_event(ev_kind, nth):
-                            calls = [dict(c) for c in base["calls"]]
-                            calls[1] = dict(calls[1], faults=[f])
-                            yield dict(base, calls=calls)
-                    for j, ln in enumerate(faultlab.reply_lengths(base, 1)):
-                        for f in faultlab.tampers_for_reply(j, ln):
-                            calls = [dict(c) for c in base["calls"]]
-                            calls[1] = dict(calls[1], faults=[f])
-                            yield dict(base, calls=calls)
+                    for gap in ((1, 6) if idle and oi % 3 == 0 else (1,)):     # gap 6 > idle timeout: the faulted call has to reconnect
+                        base = {"kind": "pooled", "cfg": cfg, "coalesce": bool(oi % 2),
+                                "calls": [{"op": OPS[0]}, {"op": r, "advance": gap}, {"op": OPS[2], "advance": 1}, {"op": OPS[0]}]}
+                        dry = interpret(base)
+                        for ev_kind, nth in dry.events_by_call[1]:
+                            for f in faultlab.faults_for_event(ev_kind, nth):
+                                calls = [dict(c) for c in base["calls"]]
+                                calls[1] = dict(calls[1], faults=[f])
+                                yield dict(base, calls=calls)
+                        for j, ln in enumerate(faultlab.reply_lengths(base, 1)):
+                            for f in faultlab.tampers_for_reply(j, ln):
+                                calls = [dict(c) for c in base["calls"]]
+                                calls[1] = dict(calls[1], faults=[f])
+                                yield dict(base, calls=calls)
                 # calls that take time themselves: idle time counts from the release, not from the checkout
                 if idle:
                     for lat in (2, 4, 7):
